@@ -239,7 +239,7 @@ pub fn compare(w: &World, chain: &Chain, upto: u64, reg: &Reg) -> Result<(), Mis
                 if reg.in_range(ci.block) {
                     if let Some((b, _, _)) = ci.spent_at {
                         if b <= upto {
-                            return Err(Mismatch { kind: "spent-cell-returned", detail: format!("{} created in {} spent in {} (script start {}, height {})", key, ci.block, b, reg.start, upto) });
+                            return Err(Mismatch { kind: "spent-cell-returned", detail: format!("{} created in {} (tx_index {}) spent in {} (script start {}, height {}); returned as block {} tx_index {}", key, ci.block, ci.tx_index, b, reg.start, upto, c["block_number"], c["tx_index"]) });
                         }
                     }
                 }
